@@ -20,9 +20,10 @@ Oracle clauses (each a sentence of the statement of C10):
                          exempt from this clause, not from the others).
     must-raise           differential: an op that changed the twin's rawh5.digests (flushed file, before vs
                          after the op) "would have to write"; the same op on the read-only workspace must
-                         have raised (any exception type).
-    must-raise-deferred  (single ops only) an op that wrote nothing itself in the twin but whose effect the
-                         twin persisted at close(): the read-only op must have raised.
+                         have raised (any exception type).  Judged along the prefix of ops that returned
+                         normally read-only (after a refused op the twin is a different program state).  The
+                         final close() is an op like any other: what the twin persists only at close() is
+                         charged to the read-only close(), which returned normally (witness "close-after:<op>").
     helper-leaves-source-unchanged
                          bytes-unchanged evaluated on the ops that are helpers opening the file on the
                          user's behalf (read_ui_json, path2workspace, monitored_directory_copy,
@@ -353,16 +354,6 @@ def _pg_of(env, obj):
     if not pgs:
         raise LookupError("no property group")
     return pgs[0]
-
-
-def _main_entity(env):
-    return env.ent("main")
-
-
-def _an_object(env, T):
-    from geoh5py.objects import ObjectBase
-
-    return T if isinstance(T, ObjectBase) else env.ent("pts")
 
 
 def _new_data_spec(T):
@@ -990,7 +981,8 @@ def run_ro(scene, ops, workdir) -> dict:
     path.write_bytes(scene["bytes"])
     world.reset("desc")  # the scene was built from the ascending stream: new identifiers never collide
     del OPENS[:]
-    tracked = {str(path.resolve()): scene["sha"]}
+    source = str(path.resolve())
+    tracked = {source: scene["sha"]}
     ws = Workspace(path, mode="r")
     env = Env(scene, ws, path, workdir, "ro")
     viol, outcomes, errors = [], [], []
@@ -1013,7 +1005,8 @@ def run_ro(scene, ops, workdir) -> dict:
                     clause = "helper-leaves-source-unchanged"
                 sem = _semantic_diff(scene, p) if now != "<missing>" else ["file removed"]
                 kind = "content-changed" if sem else "rewritten-same-content"
-                viol.append((clause, f"{wit}:{kind}", {"step": idx, "after": label, "file": Path(p).name, "semantic_diff": sem}))
+                which = "the file opened read-only" if p == source else "the copy made by save_as"
+                viol.append((clause, f"{wit}:{kind}", {"step": idx, "after": label, "file": which, "semantic_diff": sem}))
                 tracked[p] = now  # report once per change
         new_opens = OPENS[max(seen_opens, env.opens_mark):]
         seen_opens = len(OPENS)
@@ -1024,10 +1017,10 @@ def run_ro(scene, ops, workdir) -> dict:
                     viol.append(("handle-stays-read-only", wit, {"step": idx, "after": label, "mode": st}))
             bad = open_write_intents(set(tracked))
             if bad:
-                viol.append(("handle-stays-read-only", wit, {"step": idx, "after": label, "open_with_write_intent": [Path(b).name for b in bad]}))
+                viol.append(("handle-stays-read-only", wit, {"step": idx, "after": label, "open_with_write_intent": len(bad)}))
             for key, asked, got in new_opens:
                 if key in tracked and got != "r":
-                    viol.append(("handle-stays-read-only", wit, {"step": idx, "after": label, "opened": Path(key).name, "asked": asked, "got": got}))
+                    viol.append(("handle-stays-read-only", wit, {"step": idx, "after": label, "opened": "the file opened read-only" if key == source else "the copy made by save_as", "asked": asked, "got": got}))
 
     state = None
     for idx, op in enumerate(ops):
